@@ -130,6 +130,43 @@ CHECKS.update({
     },
 })
 
+H2_NOTE = (
+    "Trusted: TLC 1.8.0; the h2 library on the SERVER side to produce well-formed frames, hyperframe+hpack to read the client's frames; "
+    "the virtual loop and simulated network. H2Conn.tla (design model with semaphore / read lock / windows) is model-checked but is bound to "
+    "the code through the wire-level obligations of H2Wire.tla, not step by step. Small scope: <= 5 streams, windows of a few bytes "
+    "(plus the named large transfers)."
+)
+CHECKS.update({
+    "C01": {
+        "category": "model_checking",
+        "text": "HTTP/1.1: TLC proves OwnResponse / ReuseGate on Pool.tla (a deviation that idles unfinished exchanges breaks them); every recorded pool execution (responses read fully, closed early, Connection: close, HTTP/1.0, early responses, faults, cancellations, all completion orders) is validated by TLC with the observed clauses: the token echoed in status line / header / body is the caller's own, and a connection that reports idle has finished its exchange in both directions on the simulated peer. HTTP/2: wire logs of concurrent streams (also two connections at once) are replayed against H2Wire, whose RetOk guard demands each caller's answer to be its own stream's.",
+        "design_ref": "DESIGN.md 4.1, 4.2, 5 (C01)",
+        "technique": "TLA+ model checking (TLC) + trace validation (pool executions and HTTP/2 wire logs)",
+        "note": POOL_NOTE + " " + H2_NOTE,
+    },
+    "C12": {
+        "category": "model_checking",
+        "text": "TLC proves PermitAccounting, StreamCap, deadlock freedom and NoWedge (liveness under a fair server) on H2Conn.tla for all interleavings of 3 requests with SETTINGS changes and resets, and shows the code's deviation (SETTINGS lowered: the reader blocks on the semaphore inside the read lock) deadlocks; the real pool talks to a driver-controlled HTTP/2 server under DFS / random orders of client operations and server frames, and TLC replays each wire log against H2Wire (StreamCap on every new stream, Isolation at every return, NoWedge at the end).",
+        "design_ref": "DESIGN.md 4.2, 5 (C12)",
+        "technique": "TLA+ model checking incl. liveness (TLC) + trace validation of wire logs",
+        "note": H2_NOTE,
+    },
+    "C13": {
+        "category": "model_checking",
+        "text": "TLC proves FlowSafe / UploadExact and upload completion (liveness) on H2Conn.tla for one and two uploads sharing the connection window and shows the 're-read after the lock' deviation deadlocks; uploads of 0, 1, 12, 65535, 65536 and 3x65535 bytes against server-chosen tiny / default windows, INITIAL_WINDOW_SIZE changes, stream-only / connection-only grants of various sizes and a long-poll neighbour are run on the real client and each DATA frame is checked by TLC against the windows as the server accounts them (H2Wire.CData); large downloads check that credit is returned.",
+        "design_ref": "DESIGN.md 4.2, 5 (C13)",
+        "technique": "TLA+ model checking incl. liveness (TLC) + trace validation of wire logs",
+        "note": H2_NOTE,
+    },
+    "C14": {
+        "category": "model_checking",
+        "text": "TLC proves AtMostOnce and RetryOnlyUnsent on Pool.tla; recorded pool executions (every fault position, retries settings, double assignment re-queues) are validated with the observed clause 'request head seen on at most one stream' at every return; HTTP/2: GOAWAY with every last-stream-id relative to 3 concurrent streams (and a gated upload) under DFS / random orders is replayed against H2Wire: no new stream after GOAWAY, only a refused stream is ever re-sent.",
+        "design_ref": "DESIGN.md 4.1, 4.2, 5 (C14)",
+        "technique": "TLA+ model checking (TLC) + trace validation (pool executions and HTTP/2 wire logs)",
+        "note": POOL_NOTE + " " + H2_NOTE,
+    },
+})
+
 NOT_YET = {
     "C01": "not claimed yet: Pool/H2Conn trace clauses for response ownership are under construction",
     "C02": "not claimed yet: Framing module under construction",
